@@ -112,7 +112,7 @@ func runNatives(run *ev.Run, v *env, ws *witnessState, entryFlags []callflag.Cal
 	parallel(len(cells), func(i int) {
 		cl := cells[i]
 		c := cl.c
-		id := fmt.Sprintf("native/%s/%s/e=%s/f=%s", v.stage, c.id(), fstr(cl.e), fstr(cl.f))
+		id := fmt.Sprintf("native/%s/%s/e=%s/f=%s", v.stage+v.variant, c.id(), fstr(cl.e), fstr(cl.f))
 		if !run.Want(id) {
 			return
 		}
@@ -128,7 +128,7 @@ func runNatives(run *ev.Run, v *env, ws *witnessState, entryFlags []callflag.Cal
 			return
 		}
 		reached := len(o.Calls) > 0
-		run.Case(fmt.Sprintf("native/%s/%s/e=%s/f=%s/%s", v.stage, c.id(), fstr(cl.e), fstr(cl.f), o.summary(v.name)), reached)
+		run.Case(fmt.Sprintf("native/%s/%s/e=%s/f=%s/%s", v.stage+v.variant, c.id(), fstr(cl.e), fstr(cl.f), o.summary(v.name)), reached)
 		cnt.add("cells", 1)
 		if o.Halted {
 			cnt.add("halted", 1)
@@ -200,6 +200,12 @@ func runNatives(run *ev.Run, v *env, ws *witnessState, entryFlags []callflag.Cal
 	}
 	sort.Strings(notExercised)
 	sort.Strings(exercised)
+	if v.variant != "" {
+		run.Obs("native_methods"+v.variant, int64(len(methods)))
+		run.Obs("native_nonsafe_methods_with_effect_witness"+v.variant, int64(len(exercised)))
+		cnt.flush(run, "native"+v.variant+"_")
+		return
+	}
 	run.Obs("native_methods_"+v.stage, int64(len(methods)))
 	run.Obs("native_safe_methods_"+v.stage, int64(len(safeMethods)))
 	run.Obs("native_nonsafe_methods_with_effect_witness_"+v.stage, int64(len(exercised)))
